@@ -42,7 +42,7 @@ def setup(obs):
 
 def mask_region_spec(rng, cls=None, big=False):
     cls = cls or rng.choice(gen.MASKABLE)
-    L = gen.logu(rng, 0.3, 40) if not big else gen.logu(rng, 100, 300)
+    L = (gen.logu(rng, 0.3, 40) if rng.random() < 0.85 else gen.logu(rng, 0.01, 0.3)) if not big else gen.logu(rng, 100, 300)
     kind = rng.choice(['int', 'half', 'quarter', 'generic', 'generic', 'far'])
     if kind == 'int':
         c = (float(rng.randint(-20, 20)), float(rng.randint(-20, 20)))
